@@ -45,6 +45,7 @@ R.contract(
     args={"values": ListOf(VC(), [0, 1, 2])},
     ensures={"some_present_part_is_negative": "iff(result, any(v.generator is NEGATIVE() and (v.location == 'body' or v.value is not None) for v in values))"},
     bounded_note="up to 2 containers with all label/value combinations (the real call site passes 5; the predicate is per element)",
+    inline=True,  # at the call site in openapi_cases the real body is executed on the 5 containers
 )
 
 # ---- which header / cookie locations can be violated at all
